@@ -49,8 +49,18 @@ impl Act {
 }
 
 pub fn key_string(tag: char, c: usize, r: usize, labels: &[u32]) -> String {
-    let l: Vec<String> = if tag == 'Z' { Vec::new() } else { rank_compress(labels).iter().map(|x| x.to_string()).collect() };
-    format!("{}|{},{}|{}", tag, c, r, l.join(","))
+    use std::fmt::Write;
+    let mut s = String::with_capacity(16 + labels.len() * 3);
+    let _ = write!(s, "{}|{},{}|", tag, c, r);
+    if tag != 'Z' {
+        for (i, x) in rank_compress(labels).iter().enumerate() {
+            if i > 0 {
+                s.push(',');
+            }
+            let _ = write!(s, "{}", x);
+        }
+    }
+    s
 }
 pub fn parse_key(key: &str) -> (char, usize, usize, Vec<u32>) {
     let mut p = key.split('|');
@@ -735,6 +745,8 @@ pub fn expand<E: Elem>(key: &str, ctx: &mut Ctx, bounds: &Bounds, with_terminals
     let (tag, sc, sr, labels) = parse_key(key);
     debug_assert_eq!(tag, tag_of::<E>());
     let acts = actions(sc, sr, !E::TRACKED, with_terminals);
+    // successors already reported for this state (the driver deduplicates across states)
+    let mut emitted: HashSet<String> = HashSet::new();
     for act in acts.iter() {
         for cap in ['x', 's'] {
             let mut act = act.clone();
@@ -750,7 +762,7 @@ pub fn expand<E: Elem>(key: &str, ctx: &mut Ctx, bounds: &Bounds, with_terminals
                     let leaky = act.op == "lr" || act.op == "lc";
                     c.outcome(if panicked { "rejected" } else if leaky { "leaked" } else { "accepted" });
                     if !panicked {
-                        c.nontrivial((key, act.enc()));
+                        c.nontrivial((key, &act.op, &act.a, act.cap));
                     }
                     let ok = check_state(&t, &m, c, &format!("after {}", act.enc()));
                     if ok {
@@ -767,7 +779,7 @@ pub fn expand<E: Elem>(key: &str, ctx: &mut Ctx, bounds: &Bounds, with_terminals
                 },
             );
             if let Some(k) = succ {
-                if k != key {
+                if k != key && emitted.insert(k.clone()) {
                     ctx.successor(k, format!("{}\t{}", key, act.enc()));
                 }
             }
